@@ -24,11 +24,16 @@ namespace CkbVerif.Dao
 open CkbVerif.Arith
 
 /-- failure classes: `DaoError::Overflow` / `CapacityError::Overflow`, a Rust panic (division by
-zero, `+` overflow with overflow checks on), `DaoError::InvalidOutPoint` -/
+zero, `+` overflow with overflow checks on), `DaoError::InvalidOutPoint`; and, for
+`transaction_maximum_withdraw` on raw inputs (`Model/DaoRaw.lean`), `DaoError::InvalidHeader`
+(a header the data loader does not know) and `DaoError::InvalidDaoFormat` (the witness of a
+withdrawing input) -/
 inductive Err where
   | overflow
   | panic
   | invalidOutPoint
+  | invalidHeader
+  | invalidDaoFormat
 deriving Repr, DecidableEq
 
 abbrev R := Except Err
